@@ -29,7 +29,15 @@ RULE = ("chain runners: every chain script below runs under waterfall.Sche, the 
         "over the 7 behaviours: three chains one after the other (Sche x3, Do() x3, and a rotating pair of different runners) and two chains overlapped "
         "(Sche+Sche, Do()+Sche), all driven to completion; random scripts with 1-2 lists and 2-5 chains under random runners started at random moments; "
         "concurrent: 1-4 schedulers with the real Handler x 1-6 chains each, all over one slice resp. one Builder per scheduler (OConcS), every chain must "
-        "be exactly spec(tasks). Non-trivial = at least one closure, task or final ran; distinct = distinct op lists.")
+        "be exactly spec(tasks). PANIC VALUES: a panicking closure panics with a string or with one of 15 values (KPanicV: error pointer, int, struct error, real nil "
+        "dereference / index out of range, panic(nil), values whose Error() / String() panic, and the non-comparable ones: slice-typed error, raw slice, map, struct "
+        "holding a slice, func, array of slices); every ordered pair of the 16, scripted, with returning closures between and behind; on Sche.Handler, the gated "
+        "Handler and the selector loop of a RunService (OConc mode 5: MultiSelector + FuncSelector over GetChanTask calling DoTask, as RunService.Start wires it, on a "
+        "harness goroutine): every value twice, four times with another value in between next to a second poster, and all values in one run; waterfall tasks "
+        "panicking with every value (OTaskPanics) twice in one chain and in two chains under all four runners, over a shared list, and in concurrent chains; random "
+        "scripts draw panic values with repetition.  Every consumer the harness owns runs under a guard: a panic that leaves DoTask / Handler / the selector loop "
+        "ends THAT consumer (closures behind it stay unexecuted, esc = true) - an observation of the case, not a harness crash; the exception logger stays enabled "
+        "with a formatter that writes nothing, so the recover handler's formatting of the value runs. Non-trivial = at least one closure, task or final ran; distinct = distinct op lists.")
 TRUSTED_BASE = [
     "Coq 8.16.1 kernel + vm_compute (case evaluation, Examples); no native_compute",
     "hand translation utils/sche/sche.go (Post, doTask, Handler, Stop), sche_mgr.go (GetSche, DelSche), utils/waterfall/waterfall_sche.go (Chain, Sche; Builder = Sche), waterfall.go (Simple as a big-step evaluator with panics as values, ExecAndWait as a token machine over chanNext cap 1) -> C15/Model.v, measured by this correspondence run",
@@ -50,10 +58,11 @@ ASSUMPTIONS = [
     "after Stop the consumer may leave with tasks still queued (Handler's select; RunService.Stop): those closures never run - 'exactly once' is claimed for schedulers that are not stopped, 'at most once' always",
     "a waterfall task that calls its callback twice is outside the property: the chain has no guard and final can run twice (C15_double_callback, C15_callbacks_conserved)",
     "selfBlockDefend = false (the shipped value)",
+    "a real RunService starts its loop on a goroutine of its own (go r.loop()), which no harness can guard: panicking closures reach the RunService path only through OConc mode 5, the same selector wiring (MultiSelector / FuncSelector / DoTask) with the loop `for running { HandleOnce() }` written in the harness; RunService.loop's own statements (analysisRunning) run in modes 2-4 without panicking closures",
     "the caller does not modify a task list while chains are running over it (the chain reads c.tasks[index] at every step); a chain over a shared list is otherwise held to exactly the standard of a chain over a list of its own (C15_chain_frame, C15_shared_chains)",
 ]
 TECHNIQUE = ("Coq proof (inductive invariant of an interleaving transition system for all poster counts / programs / schedules; refinement of the chain machine "
              "to a history function for all chains / completion orders) + differential correspondence and property monitor against the real sche.Sche, RunService and waterfall.Sche")
-LEVEL_TEXT = ("Machine-checked Coq theorems: exactly-once / global and per-poster FIFO / panic isolation / post-after-stop for the scheduler model with a 999-slot blocking queue, "
+LEVEL_TEXT = ("Machine-checked Coq theorems: exactly-once / global and per-poster FIFO / panic isolation for every panic value (frame: programs differing only in what closures panic with behave alike under every schedule) / post-after-stop for the scheduler model with a 999-slot blocking queue, "
               "unbounded in posters, programs and schedules, for every value of the process-wide task id counter (ids wrap mod 2^32, id 0 included); order / argument passing / first-error / final-once for the chain model, unbounded in length and completion order. "
               "PARTIAL: 'on the consumer goroutine' and real blocking are measured on the running code each run, not proved.")
